@@ -35,6 +35,7 @@ type World struct {
 	specDefs  map[string]string
 	trustedPure map[string]bool
 	freshOverrides map[string]*freshOverride
+	macros    map[string]*Macro
 	mutated   map[string]bool // globals assigned outside init
 	mutScan   bool
 	repo      string
@@ -52,7 +53,7 @@ func (w *World) constID(key string) int {
 func loadWorld(repo string, patterns []string) (*World, error) {
 	w := &World{contracts: map[string]*Contract{}, ghosts: map[string]*GhostVar{}, specFuncs: map[string]*SpecFunc{},
 		lemmas: map[string]*Lemma{}, constIDs: map[string]int{}, files: map[*token.File]*ast.File{},
-		srcCache: map[string][]byte{}, allPkgs: map[string]*packages.Package{}, repo: repo, trustedPure: map[string]bool{}, freshOverrides: map[string]*freshOverride{}}
+		srcCache: map[string][]byte{}, allPkgs: map[string]*packages.Package{}, repo: repo, trustedPure: map[string]bool{}, freshOverrides: map[string]*freshOverride{}, macros: map[string]*Macro{}}
 	w.fset = token.NewFileSet()
 	cfg := &packages.Config{Mode: packages.LoadAllSyntax, Dir: repo, BuildFlags: []string{"-tags=verif"}, Fset: w.fset,
 		Env: append(os.Environ(), "GOFLAGS=-mod=mod", "GOPROXY=off", "GOSUMDB=off", "GOTOOLCHAIN=local")}
@@ -101,13 +102,16 @@ func loadWorld(repo string, patterns []string) (*World, error) {
 		for _, cg := range cf.f.Comments {
 			for _, c := range cg.List {
 				t := strings.TrimSpace(strings.TrimPrefix(c.Text, "//@"))
-				if strings.HasPrefix(c.Text, "//@") && strings.HasPrefix(t, "ghost var ") {
+				if strings.HasPrefix(c.Text, "//@") && (strings.HasPrefix(t, "ghost var ") || strings.HasPrefix(t, "ghost field ")) {
 					fs := strings.Fields(t)
 					if len(fs) >= 4 {
 						g := &GhostVar{Name: fs[2], Sort: "Int", Init: "0"}
 						if fs[3] == "bool" {
 							g.Sort = "Bool"
 							g.Init = "false"
+						}
+						if fs[1] == "field" && strings.Count(g.Name, ".") == 1 {
+							g.Name = cf.p.Types.Name() + "." + g.Name
 						}
 						w.ghosts[g.Name] = g
 					}
